@@ -21,7 +21,7 @@ ID = "C15"
 LEVEL = "model_checking"
 RULE = (
     "(i) alphabet per evaluator configuration c (quick: c1 = UNMATCHED + default metric lists, c2 = UNMATCHED + explicit lists, groups, decision, asymmetric handler; thorough: + c0 = all defaults (MATCHED), c3 = SEMANTIC): "
-    "newE(c), evaluate(x0|x1|x2), evaluate(x0, save_group_times=True), evaluate(x0, result_all=False, log_times=True, verbose=True), read resulting_metric_keys, save_to_config, new aggregator(log_times F|T), aggregator.evaluate; "
+    "newE(c), evaluate(x0|x1|x2) (always the same two array objects per history, overwritten in place with the input), evaluate(x0, save_group_times=True), evaluate(x0, result_all=False, log_times=True, verbose=True), read resulting_metric_keys, save_to_config, new aggregator(log_times F|T), aggregator.evaluate; "
     "+ new default EdgeCaseHandler, direct panoptic_evaluate with defaults, construction (+ attempted use) of two evaluators with unusual argument combinations (decision metric outside the default metric list; RVD decision at 0 with all flags; default instance metrics with other global metrics); ALL histories of length <= 3 (thorough <= 4 on the quick alphabet), each in a pristine forked process; "
     "semantic histories: ALL histories of length <= 4 (thorough 5) over {new evaluator, new evaluator sharing the approximator object, evaluate 1-D / 2-D / 3-D input with diagonal contacts on either evaluator}; "
     "(ii) result_all{T,F} x save_group_times{None,T,F} x log_times{None,T,F} x verbose{None,T,F} x constructor flags 2^3 x 3 inputs x 2 configurations; "
@@ -238,6 +238,7 @@ def _history_child(hist, base):
     vfs.reset(dirs=["/vfs/c", "/vfs/d"])
     nA = 0
     trace = []
+    bufs = (np.zeros_like(X[0][0]), np.zeros_like(X[0][1]))
 
     def ev(c):
         if c not in evs:
@@ -251,7 +252,14 @@ def _history_child(hist, base):
                 evs[op[1]] = new_evaluator(op[1])
             elif op[0] == "eval":
                 _, c, x, optn = op
-                p, r = X[x][0].copy(), X[x][1].copy()
+                if optn == "default":
+                    # the caller's two array objects are the same for every default-option call of the history; their
+                    # contents are overwritten in place (anything keyed by array identity would go stale)
+                    np.copyto(bufs[0], X[x][0])
+                    np.copyto(bufs[1], X[x][1])
+                    p, r = bufs
+                else:
+                    p, r = X[x][0].copy(), X[x][1].copy()
                 st, exp = base[c]["res"][x]
                 try:
                     got = obs_of(ev(c).evaluate(p, r, **OPTSETS[optn]))
